@@ -866,7 +866,7 @@ R9_RULES = [
     ("R9j", "for $x in $e {",
             "let mut r9_q = $e; while r9_q.len() > 0 { let $x = vec_take_first(&mut r9_q);"),
     ("R9f", "for $x in $$e . iter ( ) {",
-            "let mut r9_n: usize = 0; while r9_n < $$e.len() { let $x = $$e.get(r9_n); r9_n = r9_n + 1;"),
+            "let mut r9_n: usize = 0; while r9_n < $$e.len() { let $x = &$$e[r9_n]; r9_n = r9_n + 1;"),
 ]
 
 
